@@ -13,6 +13,7 @@ import (
 	"strconv"
 	"strings"
 	"sync"
+	"sync/atomic"
 	"time"
 
 	"github.com/go-spring/log"
@@ -83,6 +84,22 @@ func runC03Probe(cases []string, out *bufio.Writer, _ []string) {
 	log.BufferCap.Store(10 * 1024)
 }
 
+type c03SiteT struct {
+	file string
+	line int
+}
+
+var c03Site atomic.Value
+
+// c03Log is the one statement all goroutines log from; it records where that statement is
+//
+//go:noinline
+func c03Log(ctx context.Context, tag *log.Tag, fs []log.Field) {
+	_, f, l, _ := runtime.Caller(0)
+	c03Site.Store(c03SiteT{f, l + 2}) // the log statement two lines below the Caller call
+	log.Info(ctx, tag, fs...)
+}
+
 type c03TimeKey struct{}
 
 // c03Time is the time event (g,i) is stamped with: seconds, milliseconds and zone all differ between goroutines and between consecutive events.
@@ -126,6 +143,13 @@ func runC03(cases []string, out *bufio.Writer, _ []string) {
 		cfg := map[string]string{"logger.lg.type": "Logger", "logger.lg.tags": "_c03_*", "logger.lg.appenderRef.ref": "a", "appender.a.layout.type": layName,
 			"enableCaller": "false", "bufferCap": f[4]}
 		switch sink {
+		case "dual": // two appenders behind one logger, each with its own layout and its own file:line width; the caller location is on
+			cfg["appender.a.type"], cfg["appender.a.layout.type"], cfg["appender.a.layout.fileLineLength"] = "Console", "TextLayout", "48"
+			cfg["appender.b.type"], cfg["appender.b.fileDir"], cfg["appender.b.fileName"] = "File", dir, "a.log"
+			cfg["appender.b.layout.type"], cfg["appender.b.layout.fileLineLength"] = "JSONLayout", "20"
+			delete(cfg, "logger.lg.appenderRef.ref")
+			cfg["logger.lg.appenderRef[0].ref"], cfg["logger.lg.appenderRef[1].ref"] = "a", "b"
+			cfg["enableCaller"] = "true"
 		case "console", "pipe":
 			cfg["appender.a.type"] = "Console"
 		case "file":
@@ -186,7 +210,7 @@ func runC03(cases []string, out *bufio.Writer, _ []string) {
 			go func(g int) {
 				defer wg.Done()
 				for i := 0; i < ne; i++ {
-					log.Info(context.WithValue(ctx, c03TimeKey{}, c03Time(g, i)), tag, c03Fields(g, i, size(g, i))...)
+					c03Log(context.WithValue(ctx, c03TimeKey{}, c03Time(g, i)), tag, c03Fields(g, i, size(g, i)))
 					if sink == "rolling" && i%8 == 7 { // stretch the run over at least one real rotation boundary (1 s interval)
 						time.Sleep(time.Duration(1300*8/ne) * time.Millisecond)
 					}
@@ -203,7 +227,7 @@ func runC03(cases []string, out *bufio.Writer, _ []string) {
 			pipeW.Close()
 			<-pipeDone
 			data = pipeData.Bytes()
-		} else if sink == "console" {
+		} else if sink == "console" || sink == "dual" {
 			data, writes = ss.buf.Bytes(), ss.writes
 		} else {
 			ents, _ := os.ReadDir(dir)
@@ -217,29 +241,77 @@ func runC03(cases []string, out *bufio.Writer, _ []string) {
 		if layout == "json" {
 			lay = &log.JSONLayout{BaseLayout: log.BaseLayout{FileLineLength: 48}}
 		}
-		want := map[string]int{}
-		for g := 0; g < ng; g++ {
-			for i := 0; i < ne; i++ {
-				ev := &log.Event{Level: log.InfoLevel, Time: c03Time(g, i), Tag: "_c03_probe",
-					Fields: c03Fields(g, i, size(g, i))}
-				if withCtx {
-					ev.CtxFields = []log.Field{log.String("req", "r-1"), log.Int("tenant", 42)}
-				}
-				want[string(bytes.Clone(lay.ToBytes(ev)))]++
-			}
+		siteFile, siteLine := "", 0
+		if sink == "dual" {
+			st, _ := c03Site.Load().(c03SiteT)
+			siteFile, siteLine = st.file, st.line
+			lay = &log.TextLayout{BaseLayout: log.BaseLayout{FileLineLength: 48}}
 		}
 		var bad []string
-		lines := bytes.SplitAfter(data, []byte("\n"))
 		nl := 0
-		for _, l := range lines {
-			if len(l) == 0 {
-				continue
+		want := map[string]int{}
+		compare := func(data []byte, lay log.Layout) {
+			for g := 0; g < ng; g++ {
+				for i := 0; i < ne; i++ {
+					ev := &log.Event{Level: log.InfoLevel, Time: c03Time(g, i), File: siteFile, Line: siteLine, Tag: "_c03_probe",
+						Fields: c03Fields(g, i, size(g, i))}
+					if withCtx {
+						ev.CtxFields = []log.Field{log.String("req", "r-1"), log.Int("tenant", 42)}
+					}
+					want[string(bytes.Clone(lay.ToBytes(ev)))]++
+				}
 			}
-			nl++
-			if want[string(l)] > 0 {
-				want[string(l)]--
-			} else {
-				bad = append(bad, "foreign-or-torn-or-duplicate("+idOf(l)+")")
+			for _, l := range bytes.SplitAfter(data, []byte("\n")) {
+				if len(l) == 0 {
+					continue
+				}
+				nl++
+				if want[string(l)] > 0 {
+					want[string(l)]--
+				} else {
+					bad = append(bad, "foreign-or-torn-or-duplicate("+idOf(l)+")")
+					if os.Getenv("C03_DEBUG") != "" {
+						fmt.Fprintf(os.Stderr, "GOT  %q\n", l)
+						for w := range want {
+							fmt.Fprintf(os.Stderr, "WANT %q\n", w)
+							break
+						}
+					}
+				}
+			}
+		}
+		compare(data, lay)
+		if sink == "dual" { // the file:line text of every line, computed here from the documented rule (not by the library's own code)
+			fl := fmt.Sprintf("%s:%d", siteFile, siteLine)
+			cut := func(w int) string {
+				if len(fl) <= w {
+					return fl
+				}
+				return "..." + fl[len(fl)-(w-3):]
+			}
+			for _, l := range bytes.Split(data, []byte("\n")) {
+				if len(l) > 0 && !bytes.Contains(l, []byte("]["+cut(48)+"] ")) {
+					bad = append(bad, "console-line-with-another-layouts-file-line("+idOf(l)+")")
+				}
+			}
+		}
+		if sink == "dual" { // the second sink: its own layout, its own width
+			var fdata []byte
+			ents, _ := os.ReadDir(dir)
+			for _, e := range ents {
+				b, _ := os.ReadFile(filepath.Join(dir, e.Name()))
+				fdata = append(fdata, b...)
+			}
+			compare(fdata, &log.JSONLayout{BaseLayout: log.BaseLayout{FileLineLength: 20}})
+			fl := fmt.Sprintf("%s:%d", siteFile, siteLine)
+			want20 := fl
+			if len(fl) > 20 {
+				want20 = "..." + fl[len(fl)-17:]
+			}
+			for _, l := range bytes.Split(fdata, []byte("\n")) {
+				if len(l) > 0 && !bytes.Contains(l, []byte(`"fileLine":"`+want20+`"`)) {
+					bad = append(bad, "file-line-with-another-layouts-file-line("+idOf(l)+")")
+				}
 			}
 		}
 		missing := 0
@@ -256,7 +328,11 @@ func runC03(cases []string, out *bufio.Writer, _ []string) {
 		if len(bad) > 6 {
 			bad = append(bad[:6], fmt.Sprintf("...(%d)", len(bad)))
 		}
-		fmt.Fprintf(out, "%d %d %s\n", ng*ne, nl, strings.Join(bad, ","))
+		total := ng * ne
+		if sink == "dual" {
+			total *= 2
+		}
+		fmt.Fprintf(out, "%d %d %s\n", total, nl, strings.Join(bad, ","))
 		os.RemoveAll(dir)
 	}
 	guard(func() {
